@@ -6,3 +6,13 @@ open IQE.Props.C42
 #print axioms C42_workers_never_exceeds
 #print axioms C42_workers_gen_bounds
 #print axioms C42_workers_gen_eq_model
+#print axioms C42_mem_range
+#print axioms C42_numtxt_iff_parse
+#print axioms C42_renders_no_comma
+#print axioms C42_part_denotes
+#print axioms C42_collect_denotes
+#print axioms C42_denotes
+#print axioms C42_canonical
+#print axioms C42_junk_ignored
+#print axioms C42_renders_total
+#print axioms C42_every_input_rendered
